@@ -152,6 +152,14 @@ claim("C18",
       "but a frozen skip set. Faithfulness of the model to the text is not decided.",
       COMMON_NOTE, "sibling agreement (reader/writer) + dominance + aliasing lint", "DESIGN.md section 3 C18")
 
+claim("C19",
+      "Static analysis and exhaustive data lints: nuclides.dat / elements.dat / burn-chain.yaml / mcc-nuclides.yaml parsed as data (no third-party YAML) and checked completely (unique (Z,A,S), "
+      "N=A-Z, symbols per element, natural abundances per element summing to 1 or 0, every burn-chain key and product a derivable or registered name, branch in [0,1], MC2 ids unique per library - "
+      "the shared DUMMY id of DUMP1/DUMP2 is a recorded known finding); the index dictionaries written only inside nuclideBases with each checked store dominated by its duplicate test; identifier "
+      "formats embedding A, Z(3 digits) and the state number; every default material composition that folds (numerically, or symbolically with table abundances substituted) sums to one. "
+      "Uniqueness of derived labels and finiteness of density/expansion over temperature ranges are not decided.",
+      COMMON_NOTE, "exhaustive data lint + ownership/dominance + format parsing + constant/symbolic folding", "DESIGN.md section 3 C19")
+
 NA_REASON = {}
 
 
